@@ -117,7 +117,10 @@ def check_friendly(data, lang, text):
     parts = body.split(b"\n")
     if parts[0].decode("utf-8", "replace") != HDR[lang]:
         bad.append(("header-language", parts[0].decode("utf-8", "replace")))
-    if len(data) > 0:
+    if len(data) > 0 and len(parts) < 6:
+        bad.append(("context-shape", "the block quoting the line and pointing at the column is missing"))
+        tail = parts[1:]
+    elif len(data) > 0:
         # context block: "  |", "  |  <line>", "  |  <spaces>^", "  |"  — the quoted line may itself not contain \n
         q = parts[2][5:] if parts[2].startswith(b"  |  ") else None
         c = parts[3][5:] if parts[3].startswith(b"  |  ") else None
